@@ -318,6 +318,18 @@ def _id_case(repo, it, S, spec):
         k, v = run(it, f, ["gene"], {}, small)
         if not (k == "raise" and v == "InvalidQueryError"):
             out.append(("get_children_by_type refusal", f"get_children_by_type('gene') -> {k}:{v}; documented InvalidQueryError", f.qual))
+        # the map from every transcript / feature guid to the member that holds it
+        if repo.has_fn(f"{AC}.interval_guids_to_collections"):
+            n += 1
+            k, v = run(it, repo.fn(f"{AC}.interval_guids_to_collections"), [], {}, small)
+            wantmap = {}
+            for o in sg + sf + list(small.fields.get("variant_collections") or []):
+                for kid in (o.fields.get("transcripts") or o.fields.get("feature_intervals") or o.fields.get("variant_intervals") or []):
+                    wantmap[str(kid.fields["guid"])] = id(o)
+            gotmap = {str(g_): id(o) for g_, o in v.items()} if k == "ok" and isinstance(v, dict) else v
+            if gotmap != wantmap:
+                out.append(("interval_guids_to_collections", f"interval_guids_to_collections -> {k}:{len(gotmap) if isinstance(gotmap, dict) else gotmap} entries; "
+                            f"every transcript / feature guid maps to the member that holds it ({len(wantmap)} entries)", f"{AC}.interval_guids_to_collections"))
         vq = repo.fn("gene.variants:VariantIntervalCollection.query_by_guids")
         mkv = lambda s_, e, alt, nm: it.apply(ClassTok("VariantInterval"), [s_, e, alt, "SNV"], {"variant_name": nm}, None, 0)  # noqa: E731
         vs = [mkv(30, 31, "T", "c"), mkv(5, 6, "G", "a"), mkv(12, 14, "", "b")]
